@@ -60,6 +60,22 @@ def gen_cases(ctx, env, n):
             st, tt = (a, b) if rng.random() < 0.5 else (b, a)
             cls = "all-disconnected"
             shape = (d, exp, other in [f for f, _ in FRESH])
+        elif r < 0.9:
+            # product-defined units of the user's own, one declared with a Decimal number and one with a float (the
+            # registry then holds ratios of both kinds), meeting on one side of a conversion that a third, unconnected
+            # unit makes impossible
+            name, d = rng.choice(FRESH)
+            other = rng.choice([o for o in fresh_by_dim[d] if o != name] or [name])
+            if other == name:
+                continue
+            exp = rng.choice([1, -1, 2])
+            mine = rng.sample(["zqc07push", "zqc07shove", "zqc07heave"], 2)
+            left = ["mul", ["mul", ["u", mine[0]], ["u", mine[1]]], ["pow", ["u", name], exp]]
+            si_of = {"zqc07push": ["u", "newton"], "zqc07shove": ["u", "newton"], "zqc07heave": ["u", "joule"]}
+            right = ["mul", ["mul", si_of[mine[0]], si_of[mine[1]]], ["pow", ["u", other], exp]]
+            st, tt = (left, right) if rng.random() < 0.5 else (right, left)
+            cls = "partially-connected"
+            shape = ("own-product-defined", tuple(sorted(mine)), d, exp)
         else:
             # one factor convertible, one not
             factors = pools.random_factors(rng, max_factors=2, hostile=0.3)
@@ -102,6 +118,12 @@ def run(ctx):
     batch = 600 if ctx.tier == "quick" else 5000
     cases = gen_cases(ctx, env, n)
     defs = [["define", name, name, ["dimname", d]] for name, d in FRESH]
+    newton_t = ["mul", ["u", "kilogram"], ["div", ["u", "meter"], ["pow", ["u", "second"], 2]]]
+    joule_t = ["mul", ["u", "kilogram"], ["div", ["pow", ["u", "meter"], 2], ["pow", ["u", "second"], 2]]]
+    defs += [["define", "zqc07push", "zqc07push", ["dimname", "force"]], ["define", "zqc07shove", "zqc07shove", ["dimname", "force"]],
+             ["define", "zqc07heave", "zqc07heave", ["dimname", "energy"]],
+             ["declare", ["u", "zqc07push"], ["d", "2.5"], newton_t], ["declare", ["u", "zqc07shove"], ["f", (3.0).hex()], newton_t],
+             ["declare", ["u", "zqc07heave"], ["d", "1.5"], joule_t]]
     # refused declarations (zero-sized or self equivalences raise and must equate nothing) are part of the
     # history: afterwards the same impossible conversions must still fail with ConversionNotFound only
     by_dim = {}
